@@ -148,6 +148,59 @@ def http(case, res):
             S.stats["exchanges"] += len(cuts)
             S.shutdown()
             return [mode, tn, len(cuts)]
+        elif mode == "burst":
+            # many connections become pending on the listener between two wake-ups of the daemon (a burst while it was busy): the
+            # listener is edge triggered, whatever is queued has to be taken now - each exchange is judged like a single one
+            inv = invalid_by_construction()
+            tmpl = templates()
+            for rnd in range(prm.get("rounds", 2)):
+                k = rng.choice([9, 10, 11, 12, 20, 33, 64])
+                conns = []
+                for i in range(k):
+                    n += 1
+                    c = S.connect("x%d" % n, "ws")
+                    c.ledger, c.track_input, c.may_close = False, False, True
+                    if rng.random() < 0.25:
+                        name, cls = rng.choice(sorted(tmpl)), "valid"
+                        data = tmpl[name]
+                        c.hs_key = KEY
+                    else:
+                        name, cls = rng.choice(sorted(inv)), "invalid"
+                        data = inv[name]
+                        c.hs_key = None
+                    if rng.random() < 0.8:
+                        S.send_bytes(c, data, pick_chunks(rng))
+                        sent = True
+                    else:
+                        sent = False
+                    conns.append((c, name, cls, data, sent))
+                S.settle()
+                S.sig("burst", min(k, 12), rnd)
+                S.stats["burst_connections"] += k
+                for c, name, cls, data, sent in conns:
+                    if not sent:
+                        S.send_bytes(c, data, pick_chunks(rng))
+                S.settle()
+                for c, name, cls, data, sent in conns:
+                    S.stats["exchanges"] += 1
+                    status = c.dec.status
+                    if not c.accepted:
+                        S.v("conn/pending-connection-not-accepted", "%s (%s) of a burst of %d" % (c.name, name, k))
+                        break
+                    if cls == "valid" and status != 101:
+                        S.v("http/valid-upgrade-not-answered-101:" + name, "in a burst of %d: status %r closed %r" % (k, status, c.closed))
+                    if cls == "invalid" and status == 101:
+                        S.v("http/non-upgrade-answered-101:" + name, "in a burst of %d" % k)
+                    if cls == "invalid" and status is None and not c.closed and b"\r\n\r\n" in data:
+                        S.v("http/complete-non-upgrade-left-pending:" + name, "in a burst of %d" % k)
+                for c, name, cls, data, sent in conns:
+                    if not c.closed:
+                        S.end(c, rng.choice(["eof", "rst"]))
+                S.settle()
+                for c, name, cls, data, sent in conns:
+                    if not c.closed and c.accepted:
+                        S.v("conn/ended-connection-not-released", "%s %s (burst)" % (cls, name))
+                        break
         else:   # random mutations of all templates and invalid variants
             pool = list(templates().values()) + list(invalid_by_construction().values()) + hostile.http_requests(rng)
             for _ in range(prm.get("count", 60)):
